@@ -342,7 +342,7 @@ def l3_shape(ctx, RL):
                             (LP, '=', '*'): boolform.all_of(HIT, N(LC)),
                             (TOP + 'lc)', '--', ''): boolform.all_of(HIT, LC),
                             (PC, '=', TOP + 'start)'): boolform.all_of(HIT, LC)}, ignore_value=(LP,))
-    g = ctx.F['functions'].get(I + 'Repeat(unsigned short)')
+    g = ctx.fn_opt(I + 'Repeat(unsigned short)')
     repeat_helper = g
     ctx.inst(R)
     inlined_count = {}
